@@ -196,8 +196,12 @@ class C16(Check):
             "shared_ptr and tuples/pairs of them) over small grids of leaves (ints {-1,0,1,2^31-1}, strings {'',a,b,ab}, doubles {-0.0,0.0,1.5}, "
             "short/char/unsigned/long long/bool/float grids; larger grids in the thorough tier): ALL ordered pairs of P (and of Q in the thorough "
             "tier), for every type structured pairs (equal copy, -0.0 vs 0.0, one leaf changed, two components swapped) and random pairs, "
-            "sampled/all triples for transitivity, unordered_set/map insert-a-subset-then-probe-the-grid cases; random choices from VERIF_SEED. "
-            "A case is non-trivial when its values are not all textually identical (pair/triple) resp. when something is inserted and some probe "
+            "sampled/all triples for transitivity, unordered_set/map insert-a-subset-then-probe-the-grid cases; HISTORY cases for the tuple_operators "
+            "types P and Q: all 108 combinations of {no first use, hash(x), insert+find in a set} x {the object, a copy made before, a copy made "
+            "after the first use} x {member-wise assignment, assignment through as_tuple(), copy assignment, move assignment} x {observe the "
+            "object, a copy of it, an object moved from it} x sets with 0 / 3 / 30 other elements, grid values a -> b; random choices from VERIF_SEED. "
+            "A case is non-trivial when its values are not all textually identical (pair/triple), when a != b and the object was used before the "
+            "change (history) resp. when something is inserted and some probe "
             "is not inserted (set/map); distinct = distinct case line")
     modelled_note = ("modelled, not verified: std::hash of leaves (instantiated from the real library per run), leaf ==/< , std::tuple/pair/variant "
                      "operators, overload resolution/ADL, std::unordered_set/map internals; pointers compare by pointee in the model")
@@ -326,6 +330,26 @@ class C16(Check):
                 l = [x, y, z]
                 rng.shuffle(l)
                 yield "t %s %s %s %s" % (t, W(l[0]), W(l[1]), W(l[2])), "triple-structured"
+        # (v) HISTORIES (tuple_operators types P and Q): an object built from a, used (hashed / stored in a set), brought
+        # to the value b in place (member-wise, through as_tuple(), whole-object copy / move assignment), directly or
+        # through a copy made before / after the first use, observed itself or through a copy / move of it, then compared
+        # with a freshly built b — every combination, with no, a few and more than 20 other elements in the sets
+        # (libstdc++ scans tables of <= 20 elements linearly when the hasher is not "fast")
+        codes = [f + w + h + p for f in "nds" for w in "oba" for h in "mtwv" for p in "-ck"]
+        reps = 1 if quick else 8
+        for t in ('P', 'Q'):
+            sh = TYPES[t]
+            for code in codes:
+                for nfill in (0, 3, 30):
+                    for _ in range(reps):
+                        a = random_value(sh, GRID_QUICK, rng)
+                        b = self.related(sh, a, GRID_QUICK, rng) if rng.random() < 0.6 else random_value(sh, GRID_QUICK, rng)
+                        if b == a and rng.random() < 0.9:
+                            b = random_value(sh, GRID_QUICK, rng)
+                        fill = [random_value(sh, GRID_QUICK, rng) for _ in range(nfill)]
+                        if nfill and rng.random() < 0.5:
+                            fill[rng.randrange(nfill)] = a      # the old value is (still) in the container
+                        yield "h %s %s %s %s %s" % (t, code, W(a), W(b), ";".join(W(v) for v in fill) or "."), "history"
         # (iv) hash containers: insert a subset, probe the whole grid (or a sample of it for the big types)
         nsets = 12 if quick else 120
         for t, sh in TYPES.items():
@@ -355,6 +379,8 @@ class C16(Check):
             return w[2] != w[3]
         if w[0] == "t":
             return len({w[2], w[3], w[4]}) == 3
+        if w[0] == "h":
+            return w[3] != w[4] and w[2][0] != "n"     # really changed, after a first use
         if w[0] in ("set", "map"):
             ins = set(w[2].split(";")) if w[2] != "." else set()
             probes = set(w[3].split(";")) if w[3] != "." else set()
@@ -367,6 +393,9 @@ class C16(Check):
             return ("p", w[1], o[4], o[6], o[1] == o[2])
         if w[0] == "t":
             return ("t", w[1], iobs)
+        if w[0] == "h":
+            n = 0 if w[5] == "." else w[5].count(";") + 1
+            return ("h", w[1], w[2], min(n, 21), " ".join(o[3:10]), len(o) > 2 and o[1] == o[2])
         if w[0] in ("set", "map") and len(o) >= 2:
             return (w[0], w[1], min(int(o[1]), 6) if o[1].isdigit() else o[1])
         return (w[0], iobs[:20])
@@ -374,10 +403,17 @@ class C16(Check):
     def shrink(self, case):
         w = case.split()
         import re
-        if w[0] in ("p", "t", "a"):
+        if w[0] == "h":
+            vs = w[5].split(";") if w[5] != "." else []
+            if vs:
+                yield " ".join(w[:5] + ["."])
+                yield " ".join(w[:5] + [";".join(vs[:len(vs) // 2])])
+                for i in range(len(vs)):
+                    yield " ".join(w[:5] + [";".join(vs[:i] + vs[i + 1:]) or "."])
+        if w[0] in ("p", "t", "a", "h"):
             # replace one leaf by the shortest leaf of its kind
             t = self.table()
-            for k in range(2, len(w)):
+            for k in range(3 if w[0] == "h" else 2, 5 if w[0] == "h" else len(w)):
                 for m in re.finditer(r"([chiulbfds])([^,();#]+)#[0-9a-f]{16}", w[k]):
                     short = m.group(1) + SHORTEST[m.group(1)]
                     if len(short) < len(m.group(1) + m.group(2)):
